@@ -18,7 +18,7 @@ package api
 // lastOptsEq: what the options comparison last answered (call-history ghost)
 //@ ghost var lastOptsEq bool
 //@ func (po *PinOptions) Equals
-//@   property C04 C08
+//@   property C04 C08 C03
 //@   records lastOptsEq = res
 //@   ensures [equal-options] res ==> po != nil && po2 != nil && optsEq(*po, *po2)
 //@   loop 1 (range po.Metadata)
